@@ -28,7 +28,7 @@ RULE = (
     "released alternately (A, B, A)."
 )
 ASSUMPTIONS = c08.ASSUMPTIONS
-DOC_OPTS = {"max_nodes": 6, "max_frags": 2, "max_sels": 3, "max_depth": 3}
+DOC_OPTS = {"max_nodes": 6, "max_frags": 3, "max_sels": 3, "max_depth": 3, "w_spread": 25}
 
 
 def introspection_request(c, schema, like):
@@ -36,18 +36,96 @@ def introspection_request(c, schema, like):
     def f(name, alias=None, args=None, sels=None):
         return {"k": "field", "alias": alias, "name": name, "args": args or [], "dirs": [], "sels": sels, "id": None}
 
+    def b():
+        return [["includeDeprecated", ["bool", c.maybe(50)]]] if c.maybe(70) else []
+
+    def type_sels():
+        # lists owned by the schema (fields, args, enum values, ...), with and without deprecated members
+        out = [f("name"), f("kind")]
+        if c.maybe(80):
+            sub = [f("name"), f("isDeprecated")] + ([f("args", None, [], [f("name"), f("defaultValue")])] if c.maybe(50) else []) + ([f("type", None, [], [f("name"), f("kind")])] if c.maybe(50) else [])
+            if c.maybe(50):
+                # both views of the same list in one request
+                first = c.maybe(50)
+                out.append(f("fields", "fa", [["includeDeprecated", ["bool", first]]], sub))
+                out.append(f("fields", "fb", [["includeDeprecated", ["bool", not first]]] if c.maybe(50) or not first else [], copy.deepcopy(sub)))
+            else:
+                out.append(f("fields", None, b(), sub))
+        if c.maybe(40):
+            out.append(f("enumValues", None, b(), [f("name"), f("isDeprecated")]))
+        for extra in ("inputFields", "interfaces", "possibleTypes"):
+            if c.maybe(25):
+                out.append(f(extra, None, [], [f("name")]))
+        return out
+
     sels = [f("__typename", alias=c.choice([None, "zzt"]))] if c.maybe(50) else []
     for _ in range(c.int(1, 2)):
         alias = "zzi%d" % c.int(0, 99)
-        if c.maybe(50):
-            sels.append(f("__type", alias, [["name", ["str", c.choice(list(schema["types"]) + ["Int", "Nope"])]]], [f("name"), f("kind")]))
-        else:
+        k = c.weighted([(5, "type"), (2, "schema_root"), (3, "schema_types")])
+        if k == "type":
+            decorated = [tn for tn, td in schema["types"].items() if td["kind"] == "OBJECT" and any(fd.get("dirs") for fd in td["fields"].values())]
+            tname = c.choice(decorated) if decorated and c.maybe(60) else c.choice(list(schema["types"]) + ["Int", "Nope"])
+            sels.append(f("__type", alias, [["name", ["str", tname]]], type_sels()))
+        elif k == "schema_root":
             sels.append(f("__schema", alias, [], [f("queryType", None, [], [f("name")])]))
+        else:
+            sels.append(f("__schema", alias, [], [f("types", None, [], type_sels()), f("directives", None, [], [f("name"), f("args", None, [], [f("name")])])]))
     sels = c.shuffle(sels)
     doc = {"defs": [{"k": "op", "type": "query", "name": None, "vars": [], "dirs": [], "sels": sels}]}
     r = copy.deepcopy(like)
+    r.pop("expected", None)
     r.update(doc=doc, op=None, variables={}, faults=[], kind="introspection")
     return r
+
+
+def check_introspection(schema, req, rid, resp):
+    """absolute oracle for the `fields` lists of introspection requests: exactly the declared fields, in order, minus
+    @nonIntrospectable ones, minus @deprecated ones unless includeDeprecated, minus the ones this caller may not see"""
+    if req.get("kind") != "introspection" or schema.get("schema_dirs"):
+        return None
+    if not isinstance(resp, dict) or "errors" in resp or not isinstance(resp.get("data"), dict):
+        if rid % 2 == 1:
+            return None  # a caller that may not see a *type* can meet a null at a non-null position (e.g. __Schema.queryType)
+        return "an introspection request on an introspectable schema is answered with errors: %s" % (str(resp)[:600],)
+
+    def visible(tname, include_deprecated):
+        td = schema["types"].get(tname)
+        if td is None or td["kind"] not in ("OBJECT", "INTERFACE"):
+            return None
+        out = []
+        for fn, fd in td["fields"].items():
+            names = [d["name"] for d in fd.get("dirs") or ()]
+            if "nonIntrospectable" in names or ("deprecated" in names and not include_deprecated) or ("sd" in names and rid % 2 == 1):
+                continue
+            out.append(fn)
+        return out
+
+    def check_type(tsel, tval):
+        if not isinstance(tval, dict) or "name" not in tval:
+            return None
+        for s in tsel:
+            if s["name"] == "fields":
+                inc = any(a[0] == "includeDeprecated" and a[1] == ["bool", True] for a in s["args"])
+                want = visible(tval["name"], inc)
+                got = tval.get(s.get("alias") or "fields")
+                if want is not None and [x.get("name") for x in got or ()] != want:
+                    return "%s.fields(includeDeprecated: %s) for caller %d lists %r, the schema declares %r as visible" % (tval["name"], inc, rid, [x.get("name") for x in got or ()], want)
+        return None
+
+    for sel in req["doc"]["defs"][0]["sels"]:
+        val = resp["data"].get(sel.get("alias") or sel["name"])
+        if sel["name"] == "__type":
+            msg = check_type(sel["sels"], val)
+            if msg:
+                return msg
+        elif sel["name"] == "__schema":
+            for s in sel["sels"]:
+                if s["name"] == "types":
+                    for tval in (val or {}).get("types") or ():
+                        msg = check_type(s["sels"], tval)
+                        if msg:
+                            return msg
+    return None
 
 
 def response_keys(doc):
@@ -82,6 +160,7 @@ def gen_requests(c, schema, plan):
             spec["faults"] = []
             spec["root"] = root
             spec["kind"] = "new"
+            spec["expected"] = core.jsonable(expected)
             base = (spec, ex)
             reqs.append(spec)
         elif kind == "repeat":
@@ -108,14 +187,19 @@ def gen_requests(c, schema, plan):
             r["root"] = root
             r["faults"] = []
             r["kind"] = "same_doc_other_vars"
+            r["expected"] = core.jsonable(expected)
             reqs.append(r)
         elif kind == "invalid":
             src = c.choice([r for r in reqs if r["kind"] != "invalid"])
             ms = list(mutants(schema, src["doc"]))
             if not ms:
                 continue
+            # rule first, then a site: every validation rule gets the same share, however many sites the document offers
+            rewrite = c.choice(sorted({m[0] for m in ms}))
+            ms = [m for m in ms if m[0] == rewrite]
             rewrite, site, _, mdoc = ms[c.int(0, len(ms) - 1)]
             r = copy.deepcopy(src)
+            r.pop("expected", None)
             r["doc"] = mdoc
             r["kind"] = "invalid"
             r["invalid"] = True  # survives being repeated: validation errors carry field names, not response keys
@@ -128,6 +212,7 @@ def gen_requests(c, schema, plan):
                 continue
             lab, key, f, _ = sites[c.int(0, len(sites) - 1)]
             r = copy.deepcopy(src)
+            r.pop("expected", None)
             r["faults"] = [[list(key), c02.fault_to_json(f)]]
             r["kind"] = "faulty"
             reqs.append(r)
@@ -168,6 +253,14 @@ def solo(h, schema, reqs, texts):
         h.gate = None
         resp = run_async(execute(h, req, rs, texts[i]))
         out.append((canon_response(resp), summarize(rs)))
+        if "expected" in req and not req.get("faults") and not req.get("invalid"):
+            # absolute anchor of the differential comparison: a valid, fault-free request run alone gives the reference's data
+            if not isinstance(resp, dict) or "errors" in resp or c01.ordered(resp.get("data")) != c01.ordered(req["expected"]):
+                raise Violation({"schema": schema, "requests": reqs}, "request %d (%s) run alone is not answered with the reference's data (state left by an earlier request?)\n engine:    %s\n reference: %s\nquery:\n%s" % (
+                    i, req["kind"], str(resp)[:1200], c01.ordered(req["expected"])[:1200], texts[i]), tag="solo_reference")
+        msg = check_introspection(schema, req, i, resp)
+        if msg:
+            raise Violation({"schema": schema, "requests": reqs}, "request %d run alone: %s\nquery:\n%s" % (i, msg, texts[i]), tag="introspection")
         keys = response_keys(req["doc"])
         for e in (resp.get("errors") or ()) if (isinstance(resp, dict) and not req.get("invalid")) else ():
             pth = e.get("path") if isinstance(e, dict) else None
@@ -210,6 +303,9 @@ def check(spec, h, budget, scripts, stats=None):
                     pth = e.get("path") if isinstance(e, dict) else None
                     if isinstance(pth, list) and pth and pth[0] not in keys:
                         raise Violation(sspec, "request %d reports an error at path %r, which is not a response key of its own document %r (leaked from another request?)\nresponse=%s" % (i, pth, sorted(keys), got[:800]), tag="foreign_path")
+            msg = check_introspection(schema, reqs[i], i, resp)
+            if msg:
+                raise Violation(sspec, "request %d: %s\nquery:\n%s" % (i, msg, texts[i]), tag="introspection")
             core.scribble(resp, "concurrent-%d" % i)
             if got != before[i][0]:
                 raise Violation(sspec, "request %d (%s) answered differently when run concurrently\n alone:      %s\n concurrent: %s\nschedule=%r released=%r\nrequests:\n%s" % (
@@ -242,9 +338,16 @@ def case(c, stats):
     schema, base_plan = c01.build_schema(c, {"max_objects": 3, "max_interfaces": 1, "max_unions": 1})
     if c.maybe(25):
         schema["schema_dirs"] = [{"name": "nonIntrospectable", "args": []}]  # introspection requests are then refused (with located errors)
+    # what introspection shows: deprecated and hidden fields, and elements whose visibility depends on the caller
+    for tn, td in schema["types"].items():
+        if td["kind"] == "OBJECT":
+            for fn, fd in td["fields"].items():
+                if not any(fn in schema["types"][i]["fields"] for i in td.get("interfaces", ())) and c.maybe(20):
+                    fd["dirs"] = list(fd.get("dirs") or []) + [{"name": c.choice(["deprecated", "nonIntrospectable"]), "args": []}]
     cfg = c08.gen_config(c, schema, c.maybe(60))
     plan = c08.plan_for(base_plan, cfg)
     plan["gate_hooks"] = False
+    plan["introspection_by_rid"] = True
     h = run_async(c01.make_harness(schema, plan, c08.engine_kwargs(cfg)))
     reqs = gen_requests(c, schema, plan)
     spec = {"schema": schema, "plan": plan, "config": cfg, "requests": reqs}
